@@ -7,12 +7,13 @@ set -u
 TIER=quick
 if [ "$1" = quick ] || [ "$1" = thorough ]; then TIER=$1; shift; fi
 cd /verif
-for S in "$@"; do
-  P=${S%%-*}
+for SP in "$@"; do
+  # <seed> or <seed>:<property> (run another property's check against the seed)
+  S=${SP%%:*}; P=${S%%-*}; case "$SP" in *:*) P=${SP##*:};; esac
   WT=$(mktemp -d /tmp/seedwt_XXXX); rmdir $WT
   git -C /repo worktree add --detach $WT HEAD -q || { echo "$S: worktree failed"; continue; }
   if ! git -C $WT apply /verif/seeded/$S/patch.diff; then echo "$S: patch does not apply"; git -C /repo worktree remove --force $WT; continue; fi
-  LOG=/verif/.cache/seedlogs/$S.$TIER.log; mkdir -p /verif/.cache/seedlogs
+  LOG=/verif/.cache/seedlogs/$S.$P.$TIER.log; mkdir -p /verif/.cache/seedlogs
   t0=$(date +%s)
   VERIF_REPO=$WT ./check $P --tier $TIER --no-evidence > $LOG 2>&1
   rc=$?
